@@ -2,11 +2,11 @@
 # like confirm_mutant.sh but the demonstration is a separate cargo package in <out>/m<i>_demo/
 set -u
 id="$1"; i="$2"
-wt=/tmp/mut/$id; out=/tmp/mut/$id-out; demo=$out/m${i}_demo
+B=${MUTBASE:-/tmp/mut}; wt=$B/$id; out=$B/$id-out; demo=$out/m${i}_demo
 cd "$wt" || exit 2
 git checkout -q -- .
 ok=1
-run_demo() { (cd "$demo" && CARGO_TARGET_DIR=/tmp/mut/$id-demo-target cargo test --offline 2>&1 | tail -15); }
+run_demo() { (cd "$demo" && CARGO_TARGET_DIR=$B/$id-demo-target cargo test --offline 2>&1 | tail -15); }
 o=$(run_demo); if echo "$o" | grep -q "test result: ok" && ! echo "$o" | grep -q "FAILED\|failed;  *[1-9]"; then echo "demo passes without the change: yes"; else echo "demo passes without the change: NO"; echo "$o" | tail -5; ok=0; fi
 git apply "$out/m${i}.diff" || { echo "patch does not apply"; exit 2; }
 if cargo build --offline --features _integration_test,_verif_hooks >/dev/null 2>&1; then echo "builds with hooks: yes"; else echo "builds with hooks: NO"; ok=0; fi
@@ -21,4 +21,4 @@ if [ $ok = 1 ]; then
   [ -f "$out/m${i}_demo.rs" ] && cp "$out/m${i}_demo.rs" $d/demo.rs
   echo "CONFIRMED -> $d"
 else echo "NOT CONFIRMED"; fi
-rm -rf /tmp/mut/$id-demo-target
+rm -rf $B/$id-demo-target
